@@ -262,11 +262,28 @@ package queue
 //@   at before call NewTimer#0 assert [C06.loop.timer] arg1 == gdl && gdl >= 500000
 //@   at select#1 ghost fired = res0 == 0
 //@   at before call execute#1 assert [C06.loop.fired] fired && gdl >= 500000 && arg1 == call_Peek_0_result && nolocks()
+// the loop gives up serving the queue only when it has just seen it empty under the lock (nothing executed or waited
+// for since), or on the stop signal: an item is never left queued with no loop serving it
+//@   ghost emptyseen bool
+//@   ghost stopseen bool
+//@   at call Lock#0 ghost stopseen = false
+//@   at call Peek#0 ghost emptyseen = !res1
+//@   at call execute ghost emptyseen = false
+//@   at select#0 ghost stopseen = (res0 == 0)
+//@   at select#1 ghost stopseen = (res0 == 2)
+//@   at select#1 ghost emptyseen = false
+//@   at return assert [C06.loop.exit] emptyseen || stopseen
 
 // Close: the goroutine that wins the CAS closes stopCh, exactly once.
+// Every Close -- also one that loses the CAS to a concurrent Close -- returns only after wg.Wait() (the loop goroutine,
+// and with it any callback in progress, has ended).
 //@ func (*Processor).Close
-//@   tags C07
+//@   tags C06 C07
 //@   requires p != nil
+//@   ghost waited int
+//@   at before call CompareAndSwap#0 ghost waited = 0
+//@   at call Wait ghost waited = 1
+//@   ensures [C06.close.join] waited == 1
 //@   requires p.stopped.v == 0 ==> !chdone[p.stopCh]
 //@   ensures [C07.close.once] result == nil && p.stopped.v != 0 && (old(p.stopped.v) == 0 ==> chdone[p.stopCh])
 //@   at close#0 assert [C07.close.fresh] !chdone[p.stopCh]
